@@ -237,8 +237,9 @@ func (d *DefaultClientDispatcher) messagePump() {
 			continue
 		}
 
-		// Only dispatch request if able to send and request queue isn't empty
-		if rdy && !d.requestQueue.IsEmpty() {
+		// Only dispatch request if able to send, request queue isn't empty and no request is awaiting its response
+		// (a second ready signal, e.g. from Resume, must not send the outstanding request again)
+		if rdy && !d.requestQueue.IsEmpty() && !d.pendingRequestState.HasPendingRequest() {
 			d.dispatchNextRequest()
 			rdy = false
 			// Set timer
@@ -630,8 +631,8 @@ func (d *DefaultServerDispatcher) messagePump() {
 			log.Debugf("%v ready to transmit again", clientID)
 		}
 
-		// Only dispatch request if able to send and request queue isn't empty
-		if rdy && clientQueue != nil && !clientQueue.IsEmpty() {
+		// Only dispatch request if able to send, request queue isn't empty and no request is awaiting its response
+		if rdy && clientQueue != nil && !clientQueue.IsEmpty() && !d.pendingRequestState.HasPendingRequest(clientID) {
 			// Send request & set new context
 			clientCtx = d.dispatchNextRequest(clientID)
 			clientContextMap[clientID] = clientCtx
